@@ -3,8 +3,8 @@ _FP_FILE = "lib/executors/periodicalexecutor.go"
 SPEC = dict(
     level="exploration",
     technique="runtime monitor: recorded history of Add/Wait/execute events stamped from one atomic sequence, checked after each scenario (exactly once, batch order, bulk/chunk bounds, Wait-after-Add, tick liveness/quiescence); real Bulk/Chunk/PeriodicalExecutor on a harness ticker (unbuffered, offered ticks) and the virtual clock; gated execute callbacks for staged schedules; seeded random interleavings plainly and under the Go race detector; gofail sleeps at the hand-off points in the thorough tier",
-    level_text="Held = no deviation on the executions observed, not a proof. Quick: 4 000 + 3 000 (-race) seeded interleavings of 1-8 adders with a ticking/idling/flushing/waiting driver over bulk, chunk and bare periodical executors (thresholds 1-5 tasks / 2-10 bytes), ~60 staged hand-off schedules with gated execute callbacks (Wait issued while a threshold batch sits between the adder's unlock and the flusher's registration), ~700 idle-retirement schedules (Add steered into the flusher's quit window with a held executor lock, restart by a later Add, liveness through ticks only). Thorough: 15-30x the cases plus the same families with gofail sleeps after the unlock in Add, before the flusher's confirm and at the entry of shallQuit.",
-    level_note="Trusts: Go runtime and race detector, sync/atomic total order for the stamps, the harness ticker, the 120-line history checker. A verdict never depends on wall-clock time: orderings are stamp comparisons with a real happens-before edge; 'never executed' is decided only when every library goroutine is parked in the flusher's select (goroutine dump); 25 s without progress inside Add/Wait/Flush is reported as a hang because termination of Wait/Add is part of the statement. Not asserted: that a tick flushes at a particular moment (a tick after a commanded batch is legitimately skipped; a dropped tick is a no-op), that Flush waits for batches taken by someone else, that the flusher must retire (only counted; zero retirements make the idle test inconclusive), anything about LessExecutor, and the SQL/metrics containers of lib/store/sqlx and lib/stat (they reuse PeriodicalExecutor with an append/RemoveAll container like the harness's typed container).",
+    level_text="Held = no deviation on the executions observed, not a proof. Quick: 4 000 plain + 3 000 -race seeded interleavings of 1-8 adder goroutines (Add/Wait/Flush/yield programs) against a ticking/idling/flushing/waiting driver over bulk, chunk and bare periodical executors (thresholds 1-5 tasks / 2-10 bytes, GOMAXPROCS 2-16); 48 staged hand-off schedules with gated execute callbacks (a contributor or bystander calls Wait while a threshold batch sits between the adder's unlock and the flusher's registration); 360 idle-retirement schedules (Add steered into the flusher's quit decision by holding the executor lock through Sync, restart by a later Add, a task behind a commanded batch, liveness through ticks alone). Thorough: 15-30x the cases plus the random, hand-off and idle families again with gofail sleeps before the send on commander, after inflight--, before the confirm and at the entry of shallQuit.",
+    level_note="Trusts: Go runtime and race detector, the sync/atomic total order behind the stamps, the harness ticker, the ~150-line history checker. No verdict depends on wall-clock time: orderings are stamp comparisons with a real happens-before edge (Add returned -> stamp -> stamp -> Wait called; Wait returned -> stamp -> stamp -> execute callback about to return); 'never executed' / 'stranded' is decided only when every library goroutine is a flusher parked in its select or gone (goroutine dump) after three ticks it actually took; 25 s without progress of any actor inside Add/Wait/Flush is reported as a hang because 'Wait returns' is part of the statement. Not asserted: that a particular tick flushes (the tick after a commanded batch is skipped by design, a dropped tick is a no-op), that Flush waits for batches removed by somebody else, that the flusher must retire (counted; zero completed idle scenarios make the idle test inconclusive), order between batches, exact batch sizes below the bound, LessExecutor (not in the statement), and the SQL / metrics containers of lib/store/sqlx and lib/stat, which reuse PeriodicalExecutor with an append/RemoveAll container like the harness's typed container (the hand-shake under test lives in PeriodicalExecutor).",
     design_ref="DESIGN.md §3 C16",
     assumptions=[
         "execute callbacks do not call back into the executor (no re-entrancy) and do not panic",
@@ -22,9 +22,10 @@ SPEC = dict(
              hang_is_violation=True, env_thorough={"C16_FP": "handoff"},
              failpoints=[
                  dict(file=_FP_FILE, anchor="pe.commander <- values", name="c16AfterUnlock", where="before"),
+                 dict(file=_FP_FILE, anchor="atomic.AddInt32(&pe.inflight, -1)", name="c16AfterInflightDec", where="after"),
                  dict(file=_FP_FILE, anchor="pe.confirmChan <- lang.Placeholder", name="c16BeforeConfirm", where="before"),
              ],
-             failpoint_terms="c16AfterUnlock=25.0%sleep(1);c16BeforeConfirm=25.0%sleep(1)"),
+             failpoint_terms="c16AfterUnlock=25.0%sleep(1);c16AfterInflightDec=10.0%sleep(1);c16BeforeConfirm=25.0%sleep(1)"),
         dict(name="fp-quit", pkg="./lib/executors", run="^TestVerifC16(FpMix|Idle)$", thorough_only=True, timeout_thorough=1500,
              hang_is_violation=True, env_thorough={"C16_FP": "quit"},
              failpoints=[
